@@ -241,7 +241,50 @@ func verif_C06_magicvalues(n int) {
 	VerifReach("magicvalues")
 }
 
+// Gauss-Jordan on permuted diagonal matrices with every sign pattern, concrete
+// entries: the generic routine and the Float64 routine take the same pivots,
+// so both accept the matrix and return the same solution (control flow only;
+// exhaustive over the n! pivot orders and 2^n sign patterns)
+func verif_C06_pivots(n, perm int) {
+	pi := permutation(n, perm)
+	signs := VerifChoice("signs", 1<<uint(n))
+	val := func(i int) float64 {
+		if (signs>>uint(i))&1 == 1 {
+			return -float64(2*i + 3)
+		}
+		return float64(2*i + 3)
+	}
+	var sol [2][]float64
+	var ok [2]bool
+	for kind := 0; kind < 2; kind++ {
+		a := NullDenseMatrix(elemType(kind), n, n)
+		for i := 0; i < n; i++ {
+			a.At(pi[i], i).SetFloat64(val(i))
+		}
+		b := NullDenseVector(elemType(kind), n)
+		for i := 0; i < n; i++ {
+			b.At(i).SetFloat64(1)
+		}
+		x := NullDenseMatrix(elemType(kind), n, n)
+		x.SetIdentity()
+		var err error
+		p := VerifPanics(func() { err = gaussJordan.Run(a, x, b) })
+		ok[kind] = !p && err == nil
+		for i := 0; i < n; i++ {
+			sol[kind] = append(sol[kind], b.Float64At(i))
+		}
+	}
+	VerifAssert("gaussJordan:generic-accepts-what-Float64-accepts", ok[0] == ok[1])
+	if ok[0] && ok[1] {
+		for i := 0; i < n; i++ {
+			VerifAssertSameBits("gaussJordan:generic=Float64", sol[1][i], sol[0][i])
+		}
+	}
+	VerifReach("C06-pivots")
+}
+
 func init() {
+	VerifRegister("verif_C06_pivots", func(a []int) { verif_C06_pivots(a[0], a[1]) })
 	VerifRegister("verif_C06_fastgeneric", func(a []int) { verif_C06_fastgeneric(a[0], a[1]) })
 	VerifRegister("verif_C06_derivative", func(a []int) { verif_C06_derivative(a[0], a[1]) })
 	VerifRegister("verif_C06_magicvalues", func(a []int) { verif_C06_magicvalues(a[0]) })
